@@ -302,7 +302,22 @@ CHECKS["C03"] = {
     "technique": "property-based testing (rapid, state-aware command grammar + fault injection) with typestate and accounting oracles",
 }
 
+CHECKS["C11"] = {
+    "title": "limits enforced, every permit returned, no crash",
+    "go": GO126,
+    "units": [
+        {"name": "limits", "pkg": "internal/limits", "overlay": {"verif_c11_test.go": "harness/C11/limits_test.go"}},
+    ],
+    "quick": {"n": 8000, "shards": 16},
+    "thorough": {"n": 320000, "shards": 16},
+    "level_text": "randomised search (rapid) over limit configurations and concurrent take/hold/release histories of 1-64 workers on a virtual clock (testing/synctest), with a harness-side "
+                  "holder count as oracle, plus bucket-table histories beyond capacity; the SMTP-endpoint layer of the property is exercised by C03's permit accounting.",
+    "level_note": "built with go1.26.8 for testing/synctest; rate limits are not part of the statement and are not generated",
+    "technique": "property-based testing (rapid) of concurrent histories on a virtual clock with a counting oracle",
+    "assumptions": ["toolchain go1.26.8 (newer than the repository's 1.23.5) is used to get testing/synctest"],
+}
+
 # properties deliberately not claimed: {"property_id":..., "reason":...}
 NOT_APPLICABLE = []
 
-FIX_COMMITS = ["b0fbfbf", "ce16772", "79536cb", "9da7ceb", "ba9a898", "cd17c24", "0f579ef", "cfad1cd", "1450983", "0eb6137", "4ba5ca6", "2f36527", "b732485", "0e0d97d", "b946db5", "3bc2b0d", "7489d42", "0cccb75", "c472f5d", "674085b", "73fcd7e", "697926b", "0e63ec2", "16c771f"]
+FIX_COMMITS = ["b0fbfbf", "ce16772", "79536cb", "9da7ceb", "ba9a898", "cd17c24", "0f579ef", "cfad1cd", "1450983", "0eb6137", "4ba5ca6", "2f36527", "b732485", "0e0d97d", "b946db5", "3bc2b0d", "7489d42", "0cccb75", "c472f5d", "674085b", "73fcd7e", "697926b", "0e63ec2", "16c771f", "5bb0b0a"]
